@@ -96,6 +96,20 @@ pub fn run_hs(t: &Templates, seed: u64, scn: &Value) -> Value {
     let payload = payload_of(seed, "PK");
     let r_priv = priv_of(seed, &g("rPriv"));
     let r_param = pub_of(seed, &g("rParam"), lo);
+    // state that a library keeps between calls must not help a forger: right before the call under test, the HONEST twin of
+    // it (the true owner of the claimed key writing to the same recipient, and reading it back) runs in this same process
+    if g("sClaim") != "LO" {
+        let owner_priv = priv_of(seed, &g("sClaim"));
+        let owner_pub = pub_of(seed, &g("sClaim"), lo);
+        let e2 = priv_of(seed, "warmup-e");
+        let e2p = kestrel_crypto::x25519_derive_public(&e2).unwrap();
+        if let Ok(f) = real_encrypt(&plain, &owner_priv, &owner_pub, &rs, &e2, &e2p, &payload) {
+            if g("rs") != "LO" {
+                let rp = priv_of(seed, &g("rs"));
+                let _ = real_decrypt(&f, &rp, &rs);
+            }
+        }
+    }
     // the real encryptor, every argument as the scenario says
     let real = real_encrypt(&plain, &s_priv, &s_claim, &rs, &e_priv, &e_claim, &payload);
     // the specification as encryptor
@@ -147,6 +161,26 @@ pub fn run_hs(t: &Templates, seed: u64, scn: &Value) -> Value {
         (_, Ok(f)) => f.clone(),
         _ => return out,
     };
+    // where the real encryptor wrote something else than the specification, ITS file is a candidate forgery of its own:
+    // it is presented to the decryptor first, and an acceptance of it is what is reported
+    if let (Ok(sf), Ok(rf)) = (&spec, &real) {
+        if sf != rf && g("splice") == "none" {
+            let (d, snd, po) = real_decrypt(rf, &r_priv, &r_param);
+            if d == "ok" {
+                let mut id = "other".to_string();
+                for cand in ["S", "S2", "A", "R", "R2", "E", "E2", "E3"] {
+                    if pub_of(seed, cand, 0) == snd {
+                        id = cand.to_string();
+                    }
+                }
+                out["dec"] = json!(d);
+                out["sender"] = json!(id);
+                out["plain_ok"] = json!(po == plain);
+                out["presented"] = json!("real");
+                return out;
+            }
+        }
+    }
     let splice = g("splice");
     if splice != "none" {
         let o_s = priv_of(seed, "S2");
@@ -516,12 +550,22 @@ pub fn specfile(t: &Templates, seed: u64, scn: &Value) -> Value {
     };
     let mut file = header;
     let mut off = 0u64;
+    // content class of the plaintext: a streaming sink must not treat any content specially
+    let fill = jstr_or(scn, "fill", "prng").to_string();
+    let content = |lo: u64, hi: u64| -> Vec<u8> {
+        match fill.as_str() {
+            "zero" => vec![0u8; (hi - lo) as usize],
+            "ff" => vec![0xffu8; (hi - lo) as usize],
+            "text" => (lo..hi).map(|i| if i % 64 == 63 { b'\n' } else { b'a' + (i % 23) as u8 }).collect(),
+            _ => pbytes(pseed, lo, hi),
+        }
+    };
     for (i, c) in chunks.iter().enumerate() {
-        let pt = pbytes(pseed, off, off + c);
+        let pt = content(off, off + c);
         file.extend_from_slice(&t.chunk_record(&key, &prefix, i as u64, if i + 1 == chunks.len() { 1 } else { 0 }, &pt));
         off += c;
     }
     std::fs::write(jstr(scn, "out"), &file).expect("write specfile");
-    std::fs::write(format!("{}.plain", jstr(scn, "out")), pbytes(pseed, 0, off)).expect("write plain");
+    std::fs::write(format!("{}.plain", jstr(scn, "out")), content(0, off)).expect("write plain");
     json!({"len": file.len(), "plen": off})
 }
